@@ -321,3 +321,42 @@ def gen(tier, rng):
     # ---------------- crate-internal functions through the hooks of /repo/src/verif_hooks.rs (emitted last, from
     # their own PRNG stream, so the public families above are the same lines as before the hooks existed)
     yield from hook_lines(tier, random.Random(rng.getrandbits(32)))
+
+    # ---------------- coverage round: `& | ^ !` / `bitand_limb` of `Int` and the `Limb` operators incl. assigning forms
+    # (emitted after everything else, from their own PRNG stream)
+    yield from coverage_lines(tier, random.Random(rng.getrandbits(32)))
+
+
+def coverage_lines(tier, rng):
+    """Int<n>: every spelling of & | ^ ! (inherent, wrapping_*, checked_*, operators by value / reference / assigning,
+    Wrapping<Int>) is cross-checked inside the harness; operands around the sign bit (MIN, MAX, -1, 0), single bits,
+    complementary patterns, structured random.  Limb: & | ^ ! with &= |= ^= (by value and by reference)."""
+    quick = tier == 'quick'
+    widths = [1, 2, 3, 4, 5, 6, 8, 16] if quick else [1, 2, 3, 4, 5, 6, 7, 8, 12, 16, 32]
+    lv = EDGE_WORDS + [0xaaaaaaaaaaaaaaaa, 0x5555555555555555]
+    for a in lv:
+        yield f"c05.l.not {hx(a)}"
+        for b in lv:
+            for o in ('and', 'or', 'xor'):
+                yield f"c05.l.{o} {hx(a)} {hx(b)}"
+    for _ in range(60 if quick else 600):
+        a, b = limb_choice(rng), limb_choice(rng)
+        for o in ('and', 'or', 'xor'):
+            yield f"c05.l.{o} {hx(a)} {hx(b)}"
+        yield f"c05.l.not {hx(a)}"
+    for n in widths:
+        bits = 64 * n
+        m = 1 << bits
+        half = m >> 1
+        alt = sum(0xaaaaaaaaaaaaaaaa << (64 * i) for i in range(n))
+        prs = [(0, 0), (m - 1, m - 1), (m - 1, 0), (0, m - 1), (half, half), (half, half - 1), (half - 1, half - 1), (m - 1, half),
+               (half, 0), (1, half), (alt, (m - 1) ^ alt), (alt, alt), (1, m - 1), (half | 1, m - 2)]
+        prs += [(1 << rng.randrange(bits), rng.getrandbits(bits)) for _ in range(4)]
+        prs += [pair(rng, n) for _ in range(40 if quick else 400)]
+        for a, b in prs:
+            for o in ('and', 'or', 'xor'):
+                yield f"c05.i.{o} {n} {hx(a)} {hx(b)}"
+            yield f"c05.i.not {n} {hx(a)}"
+            yield f"c05.i.and_limb {n} {hx(a)} {hx(limb_choice(rng))}"
+        for l in (0, 1, WMAX, 1 << 63):
+            yield f"c05.i.and_limb {n} {hx(m - 1)} {hx(l)}"
